@@ -1575,7 +1575,13 @@ sexp sexp_apply (sexp ctx, sexp proc, sexp args) {
       sexp_raise("string-cursor-next: not a string", sexp_list1(ctx, _ARG1));
     else if (! sexp_string_cursorp(_ARG2))
       sexp_raise("string-cursor-next: not a string-cursor", sexp_list1(ctx, _ARG2));
-    _ARG2 = sexp_string_cursor_next(_ARG1, _ARG2);
+    i = sexp_unbox_string_cursor(_ARG2);
+    if ((i < 0) || (i > (sexp_sint_t)sexp_string_size(_ARG1)))
+      sexp_raise("string-cursor-next: cursor out of range", sexp_list2(ctx, _ARG1, _ARG2));
+    /* stepping from the end yields the cursor one past the end, without */
+    /* looking at the byte after the string */
+    _ARG2 = (i == (sexp_sint_t)sexp_string_size(_ARG1))
+      ? sexp_make_string_cursor(i + 1) : sexp_string_cursor_next(_ARG1, _ARG2);
     top--;
     sexp_check_exception();
     break;
@@ -1584,7 +1590,12 @@ sexp sexp_apply (sexp ctx, sexp proc, sexp args) {
       sexp_raise("string-cursor-prev: not a string", sexp_list1(ctx, _ARG1));
     else if (! sexp_string_cursorp(_ARG2))
       sexp_raise("string-cursor-prev: not a string-cursor", sexp_list1(ctx, _ARG2));
-    _ARG2 = sexp_string_cursor_prev(_ARG1, _ARG2);
+    i = sexp_unbox_string_cursor(_ARG2);
+    if ((i < 0) || (i > (sexp_sint_t)sexp_string_size(_ARG1)))
+      sexp_raise("string-cursor-prev: cursor out of range", sexp_list2(ctx, _ARG1, _ARG2));
+    /* stepping back from the start yields the cursor before the start, */
+    /* without looking at the bytes before the string */
+    _ARG2 = (i == 0) ? sexp_make_string_cursor(-1) : sexp_string_cursor_prev(_ARG1, _ARG2);
     top--;
     sexp_check_exception();
     break;
